@@ -19,6 +19,9 @@ ASSUMPTIONS = ['the documented in-place writers (optimizer step, initialisers, b
 TRUSTED_BASE = ['harness/tprog.py']
 
 
+STATEFUL = ('batch_norm', 'dropout', 'cross_entropy', 'softmax', 'log_softmax', 'max_pool2d', 'max_pool1d')    # ops that save something for backward
+
+
 class Exec(tprog.Impl):
     """executor that aliases marked leaves, snapshots bytes around every op / backward and repeats ops"""
     def __init__(self):
@@ -37,6 +40,8 @@ class Exec(tprog.Impl):
             if x._grad is not None: d[('grad', k)] = x._grad.tobytes()
         for k, g in enumerate(self.gs):
             d[('g', k)] = g.data.tobytes()
+        for k, a in enumerate(getattr(self, 'readonly_aux', [])):       # eval-mode running statistics handed to batch_norm
+            d[('running-statistic', k)] = a.data.tobytes()
         return d
 
     def reach(self, r):
@@ -147,7 +152,7 @@ def cases(rng, tier):
     out = []
     reps = 3 if tier == 'quick' else 60
     for op in gen_ops.OPS_BASIC + gen_ops.OPS_NN:
-        for _ in range(reps):
+        for _ in range(reps * (5 if op in STATEFUL else 1)):
             out.append(op_case(rng, op))
     for _ in range(40 if tier == 'quick' else 1200):
         out.append(dag_case(rng, tier))
